@@ -1,6 +1,6 @@
 SPECIFICATION Spec
 CONSTANTS
- Cases <- DihSmallTbl
+ Cases <- CondAll
  TISet <- TI_quick
  DefSet <- Def_both
  MissSet <- Miss_both
@@ -11,10 +11,12 @@ CONSTANTS
  DevSpecOrder = FALSE
  DevDefineFirstOnly = FALSE
  DevPairsUntyped = FALSE
- DevTableMacrosKept = TRUE
+ DevTableMacrosKept = FALSE
  DevDefineLazyCond = FALSE
  DevDefineBlockDropped = FALSE
  DevDefineInactiveKept = FALSE
+INVARIANT DomainWideOnce
 INVARIANT LookupAgrees
-INVARIANT ConformsDev
+INVARIANT Conforms
+INVARIANT ExportDomInv
 CHECK_DEADLOCK FALSE
